@@ -20,6 +20,9 @@ const (
 	kfUnpackLen   = "C04-unpack-string-length-prefix"
 	kfReadHuge    = "C04-file-read-huge-count"
 	kfHandler     = "C04-message-handler-reentry"
+	kfGCContexts  = "C04-gc-finalizer-across-contexts"
+	kfMatchInit   = "C04-match-init-beyond-end"
+	kfSetvbuf     = "C04-file-setvbuf-huge-size"
 )
 
 // demonstrations: fixed inputs, independent of the generators
@@ -32,6 +35,9 @@ var kfDemo = map[string]Case{
 	kfMetaRecur:   {Kind: "recur", Tmpl: "index-function"},
 	kfUnpackLen:   {Kind: "lib", Fn: "string.unpack", Args: []string{"pk:s", `pkd:\xff\xff\xff\xff\xff\xff\xff\xff`}},
 	kfHandler:     {Kind: "recur", Tmpl: "xpcall-handler-error-in-metamethod"},
+	kfGCContexts:  {Kind: "recur", Tmpl: "gc-across-contexts"},
+	kfMatchInit:   {Kind: "lib", Fn: "string.match", Args: []string{"s:", "pat:^", "2"}},
+	kfSetvbuf:     {Kind: "lib", Fn: "<file-mt>.__index.setvbuf", Args: []string{"file", "rfmt:full", "maxint"}},
 	kfReadHuge:    {Kind: "lib", Fn: "<file-mt>.__index.read", Args: []string{"file", "maxint"}},
 }
 
@@ -66,6 +72,9 @@ func templateExcluded(known map[string]bool, c Case) string {
 		if tm.handlerReentry && known[kfHandler] {
 			return kfHandler
 		}
+		if tm.finding != "" && known[tm.finding] {
+			return tm.finding
+		}
 	}
 	return ""
 }
@@ -98,7 +107,7 @@ func kfLimitPanicClass(c Case) bool {
 		return c.N >= 255
 	case "constants", "string-constants":
 		return c.N+(c.N+399)/400+16 > 65_535
-	case "ctor-plain":
+	case "ctor-plain", "nest-function", "nest-funcstat": // one constant per item / per nested function
 		return c.N+16 > 65_535
 	}
 	return false
@@ -106,7 +115,7 @@ func kfLimitPanicClass(c Case) bool {
 
 func checkKnownFindings(rec *ev.Recorder) map[string]bool {
 	known := map[string]bool{}
-	ids := []string{kfFormatTrunc, kfFormatP, kfParserDepth, kfCodeSize, kfLimitPanics, kfMetaRecur, kfUnpackLen, kfReadHuge, kfHandler}
+	ids := []string{kfFormatTrunc, kfFormatP, kfParserDepth, kfCodeSize, kfLimitPanics, kfMetaRecur, kfUnpackLen, kfReadHuge, kfHandler, kfGCContexts, kfMatchInit, kfSetvbuf}
 	var open []string
 	for _, id := range ids {
 		if ev.Open(id) {
@@ -125,7 +134,7 @@ func checkKnownFindings(rec *ev.Recorder) map[string]bool {
 	var cheap []string
 	for _, id := range open {
 		id := id
-		if id != kfParserDepth && id != kfMetaRecur && id != kfHandler {
+		if id != kfParserDepth && id != kfMetaRecur && id != kfHandler && id != kfGCContexts {
 			cheap = append(cheap, id)
 			continue
 		}
